@@ -29,6 +29,17 @@ static std::string trigger_for(const std::string& cls, const std::string& clause
   return "none";
 }
 
+// Load targets: ascii_load must work on ANY target object, not only on a freshly constructed one.
+// Target -1 is the blank object; target k >= 0 is initial object k after all unary observers have
+// been applied to it (so that its caches, saturation/redundancy matrices... are populated).
+template <class T>
+static T* make_target(const ClassAdapter<T>& A, int k) {
+  if (k < 0) return A.blank();
+  T* o = A.initials[k].second();
+  for (size_t m = 0; m < A.muts.size(); ++m) if (A.muts[m].observer && !A.muts[m].binary) { try { A.muts[m].f(*o, 0); } catch (...) {} }
+  return o;
+}
+
 template <class T>
 static void run_class(const ClassAdapter<T>& A, int depth) {
   double t0 = now_s();
@@ -52,18 +63,23 @@ static void run_class(const ClassAdapter<T>& A, int depth) {
       long long my = sub++;
       if (pool().want(my, sub_start)) {
         pool().step(my);
-        std::unique_ptr<T> L(A.blank());
-        bool okl = false;
-        try { okl = A.load(*L, t); } catch (const std::exception& e) { okl = false; }
-        count(CNT_TRANS);
-        if (!okl) { if (violcap().admit(A.name + "|load")) report_violation(A.name + "::ascii_load", "roundtrip:load-failed", trigger_for(A.name, "load", t, ""), inj, "ascii_load returned false", "true", t.substr(0, 600)); return; }
-        std::string t2 = A.dump(*L);
-        if (t2 != t && violcap().admit(A.name + "|dump")) report_violation(A.name + "::ascii_load", "roundtrip:dump!=", trigger_for(A.name, "dump", t, t2), inj, first_diff(t2, t), "identical text");
-        bool okk = false, ok0 = false; try { okk = A.ok(*L); ok0 = A.ok(*o); } catch (...) {}
-        if (!okk && ok0 && violcap().admit(A.name + "|ok")) report_violation(A.name + "::ascii_load", "roundtrip:loaded-not-OK", trigger_for(A.name, "ok", t, t2), inj, "OK() false", "OK() true", t.substr(0, 800));
-        std::unique_ptr<T> o2(build(A, h));
-        bool eq = false; try { eq = A.equal(*L, *o2); } catch (...) {}
-        if (!eq && violcap().admit(A.name + "|eq")) report_violation(A.name + "::ascii_load", "roundtrip:value!=", "none", inj, "loaded != original", "equal");
+        for (int tg = -1; tg < (int)A.initials.size(); ++tg) {
+          std::unique_ptr<T> L(make_target(A, tg));
+          std::string tname = tg < 0 ? "fresh object" : "reused object: " + A.initials[tg].first + " after its observers";
+          std::string inj_t = J().str("class", A.name).raw("history", hist_text(A, h)).str("load_target", tname).done();
+          std::string trg = tg < 0 ? "none" : "none";
+          bool okl = false;
+          try { okl = A.load(*L, t); } catch (const std::exception& e) { okl = false; }
+          count(CNT_TRANS);
+          if (!okl) { if (violcap().admit(A.name + "|load")) report_violation(A.name + "::ascii_load", "roundtrip:load-failed", trigger_for(A.name, "load", t, ""), inj_t, "ascii_load returned false", "true", t.substr(0, 600)); if (tg < 0) return; continue; }
+          std::string t2 = A.dump(*L);
+          if (t2 != t && violcap().admit(A.name + "|dump")) report_violation(A.name + "::ascii_load", "roundtrip:dump!=", trigger_for(A.name, "dump", t, t2), inj_t, first_diff(t2, t), "identical text");
+          bool okk = false, ok0 = false; try { okk = A.ok(*L); ok0 = A.ok(*o); } catch (...) {}
+          if (!okk && ok0 && violcap().admit(A.name + "|ok")) report_violation(A.name + "::ascii_load", "roundtrip:loaded-not-OK", trigger_for(A.name, "ok", t, t2), inj_t, "OK() false", "OK() true", t.substr(0, 800));
+          std::unique_ptr<T> o2(build(A, h));
+          bool eq = false; try { eq = A.equal(*L, *o2); } catch (...) {}
+          if (!eq && violcap().admit(A.name + "|eq")) report_violation(A.name + "::ascii_load", "roundtrip:value!=", "none", inj_t, "loaded != original", "equal");
+        }
       }
     }
     for (size_t m = 0; m < A.muts.size(); ++m) {
@@ -81,14 +97,15 @@ static void run_class(const ClassAdapter<T>& A, int depth) {
         try { ok1 = A.ok(*x); p1 = A.print(*x); } catch (...) {}
         long long my2 = sub++;
         pool().step(my2);
-        std::unique_ptr<T> y(A.blank());
+        int tg = ((item + (long long)m) % 2 == 0) ? -1 : (int)((item + (long long)m) % (long long)A.initials.size());
+        std::unique_ptr<T> y(make_target(A, tg));
         bool okl = false; try { okl = A.load(*y, t); } catch (...) {}
         if (!okl) continue;   // reported above
         std::string r2 = apply_mut(A, *y, st);
         count(CNT_TRANS, 2);
         std::string opn = A.muts[m].name + (st.operand >= 0 ? " arg=" + A.initials[st.operand].first : "");
         std::string site = A.name + "::ascii_load";
-        std::string inj2 = J().str("class", A.name).raw("history", hist_text(A, h)).str("next_op", opn).done();
+        std::string inj2 = J().str("class", A.name).raw("history", hist_text(A, h)).str("next_op", opn).str("load_target", tg < 0 ? "fresh object" : "reused object: " + A.initials[tg].first + " after its observers").done();
         if (r1 != r2) {
           if (violcap().admit(A.name + "|lr|" + A.muts[m].name)) report_violation(site, "roundtrip:lookahead-answer!=", trigger_for(A.name, "lookahead-return", t, ""), inj2, r2.substr(0, 300), r1.substr(0, 300));
           continue;
